@@ -2,6 +2,7 @@
    Model: Spec.v.  Sequential / thread try macros check the step's results in branch order. *)
 From Coq Require Import List ZArith Lia.
 From Join Require Import Tok Names Ast Comp Std Denote Spec Leaves SpecProps.
+From Join Require SpecSpawnProps.
 From Join Require RefineCorollaries.
 From Join Require Ir Gen RefineBase RefineChain RefineProg RefineTop.
 
@@ -100,3 +101,84 @@ Theorem generated_try_code_first_step :
          else Comp.Panic Comp.P_ILLTYPED)).
 Proof. exact (@RefineCorollaries.den_gen_try_first_step). Qed.
 Print Assumptions generated_try_code_first_step.
+
+(* OBLIGATION try_spawn_first_failure *)
+(* try_join_spawn!, WHOLE program on the thread machine, every schedule (stateless world): the caller ends with the outcome of the sequential try steps - the unchanged failing value of the lowest-numbered failing branch of the earliest failing step, else the transposed tuple *)
+Theorem try_spawn_first_failure :
+  forall (h : Comp.ev -> option Comp.val) (W : Type)
+    (handle : option String.string -> Comp.ev -> W -> option Comp.val * W),
+  SpecSpawn.stateless h W handle ->
+  forall
+    (msem : String.string ->
+            option (list Tok.operand) -> Comp.dval -> list Comp.dval -> Comp.comp Comp.dval)
+    (dotsem : Tok.operand -> list (String.string * option Comp.val) -> Comp.dval -> Comp.comp Comp.dval)
+    (callsem : Comp.val -> list Comp.dval -> Comp.comp Comp.dval)
+    (awaitsem : Comp.val -> Comp.comp Comp.val),
+  SpecCode.user_codeC (@SpecSpawn.ucode) msem dotsem callsem awaitsem ->
+  forall p : Spec.sprog,
+  Ast.is_async (Spec.sp_cfg p) = false ->
+  forall (nm : option String.string) (w : W) (sched : list nat),
+  Ast.is_try (Spec.sp_cfg p) = true ->
+  Spec.sp_handler p = None ->
+  Threads.thr_finished 0
+    (Threads.run_thr handle sched
+       (Threads.init nm
+          (Comp.bind (Spec.spec msem dotsem callsem awaitsem (SpecCode.with_spawn true p))
+             (fun d : Comp.dval => Comp.to_val d)) w)) = true ->
+  Threads.result_of 0
+    (Threads.run_thr handle sched
+       (Threads.init nm
+          (Comp.bind (Spec.spec msem dotsem callsem awaitsem (SpecCode.with_spawn true p))
+             (fun d : Comp.dval => Comp.to_val d)) w)) =
+  Some
+    match
+      SpecSpawnProps.try_outcome h msem dotsem callsem awaitsem p nm (Spec.max_depth p) 0
+        (RefineCorollaries.init_state p)
+    with
+    | Some (Comp.DV v) => Some v
+    | _ => None
+    end.
+Proof. exact (@SpecSpawnProps.try_spawn_first_failure). Qed.
+Print Assumptions try_spawn_first_failure.
+
+(* OBLIGATION try_outcome_characterisation *)
+Theorem try_outcome_characterisation :
+  forall (h : Comp.ev -> option Comp.val)
+    (msem : String.string ->
+            option (list Tok.operand) -> Comp.dval -> list Comp.dval -> Comp.comp Comp.dval)
+    (dotsem : Tok.operand -> list (String.string * option Comp.val) -> Comp.dval -> Comp.comp Comp.dval)
+    (callsem : Comp.val -> list Comp.dval -> Comp.comp Comp.dval)
+    (awaitsem : Comp.val -> Comp.comp Comp.val) (p : Spec.sprog) (nm : option String.string)
+    (fuel k : nat) (st : Spec.state) (d : Comp.dval),
+  SpecSpawnProps.try_outcome h msem dotsem callsem awaitsem p nm fuel k st = Some d ->
+  exists (fuel' k' : nat) (st' : Spec.state) (ds : list Comp.dval),
+    SpecSpawnProps.no_failure_until h msem dotsem callsem awaitsem p nm fuel k st (S fuel') k' st' /\
+    SpecSpawnProps.step_values h msem dotsem callsem awaitsem p nm k' st' = Some ds /\
+    (fuel' <> 0 /\ SpecProps.all_classified ds = true /\ SpecProps.first_fail_list ds = Some d \/
+     fuel' = 0 /\
+     SpecSpawn.eval h nm
+       (Spec.transpose awaitsem (SpecCode.with_spawn false p) (List.seq 0 (Datatypes.length (Spec.sp_trees p)))
+          (Spec.set_all st' (Spec.actives p k') ds)) = Some d).
+Proof. exact (@SpecSpawnProps.try_outcome_inv). Qed.
+Print Assumptions try_outcome_characterisation.
+
+(* OBLIGATION try_last_step_first_failure *)
+Theorem try_last_step_first_failure :
+  forall (h : Comp.ev -> option Comp.val) (awaitsem : Comp.val -> Comp.comp Comp.val)
+    (p : Spec.sprog) (nm : option String.string) (fam : bool) (wv vv : nat -> Comp.val)
+    (st' : Spec.state),
+  (forall b : nat, b < Datatypes.length (Spec.sp_trees p) -> SpecProps.wellf fam (wv b) (vv b)) ->
+  1 <= Datatypes.length (Spec.sp_trees p) ->
+  SpecProps.StEq p st' (fun b : nat => Comp.DV (wv b)) ->
+  SpecSpawn.eval h nm
+    (Spec.transpose awaitsem (SpecCode.with_spawn false p) (List.seq 0 (Datatypes.length (Spec.sp_trees p))) st') =
+  Some
+    (Comp.DV
+       match SpecProps.first_fail_from fam wv 0 (Datatypes.length (Spec.sp_trees p)) with
+       | Some b => wv b
+       | None =>
+           SpecProps.wrapf fam
+             (SpecProps.bare_or_tuple (List.map vv (List.seq 0 (Datatypes.length (Spec.sp_trees p)))))
+       end).
+Proof. exact (@SpecSpawnProps.try_last_step_first_failure). Qed.
+Print Assumptions try_last_step_first_failure.
